@@ -13,7 +13,7 @@ RULE = (
 )
 BUDGET = {"quick": 16 * 1500, "thorough": 16 * 10000}
 TOLERANCES = {
-    "positions": "1e-7*(1+|x*|_inf)*max(1, cond(A)^2*1e-6)",
+    "positions": "1e-9*(1+|x*|_inf)*max(1, cond(A)^2*1e-6)",
     "final_chi2": "relative 1e-8 + 1e-9*|Omega|max*(1+S)^2 floor, against the reference chi2 at the closed-form optimum and at the returned state",
 }
 ASSUMPTIONS = ["numpy.linalg.lstsq / cholesky trusted", "no claim on the `converged` flag (for an exactly consistent graph the relative test may never fire)"]
@@ -30,9 +30,17 @@ def strategy_(g):
         conds=(1.0, 1e2, 1e4),
         noise=(g.choice([0.05, 1.0, 10.0]),) * 2,
         pert=(0.3, 0.3),
-        features=("parallel", "reversed", "permute", "ids", "multifixed", "rn_lm_offsets", "quat-signs"),
+        features=("parallel", "reversed", "permute", "ids", "multifixed", "rn_lm_offsets", "quat-signs", "pure-translation-steps"),
     )
-    P = g.choice([0.0, 1.0, 1.0, 1e3, 1e6])
+    P = g.choice([0.0, 0.05, 1.0, 1.0, 1e3, 1e6])
+    W = g.choice([0.0, 0.0, 0.0, 1e4, 1e7])  # a common offset of all coordinates (georeferenced data); only differences matter
+    if W:
+        d0 = R.PDIM[case["base"]]
+        shift = [W * (1 + 0.1 * k) for k in range(d0)]
+        for v in case["verts"]:
+            v["truth"] = [t + sft for t, sft in zip(v["truth"], shift)] + list(v["truth"][d0:])
+            v["p"]["v"] = [t + sft for t, sft in zip(v["p"]["v"], shift)]
+    case["meta"]["world_offset"] = W
     ff = case["fix_first"]
     for i, v in enumerate(case["verts"]):
         if v["fixed"] or (ff and i == 0):
@@ -145,6 +153,7 @@ def check(case, ctx):
     has_off = any(e["t"] == "lm" and any(x != 0 for x in e["off"]["v"]) for e in case["edges"])
     ctx.nontrivial(m["nloops"] > 0 or "parallel" in feats or has_off or sum(fixed) >= 2 or m["init_displacement"] > 1e3)
     ctx.event("init-displacement:%g" % m["init_displacement"])
+    ctx.event("world-offset:%g" % m.get("world_offset", 0.0))
     ctx.event("opt:%s" % ("defaults" if case["opt"] is None else "custom"))
 
     xs, chi_star, cond = closed_form(case, fixed)
@@ -163,7 +172,7 @@ def check(case, ctx):
     if not GC.all_finite(g):
         return ctx.fail("nonfinite-poses", "poses not finite after optimizing a well-posed linear graph")
     xinf = max([1.0] + [abs(t) for x in xs for t in x])
-    tol = 1e-7 * (1 + xinf) * max(1.0, cond * cond * 1e-6)
+    tol = 1e-9 * (1 + xinf) * max(1.0, cond * cond * 1e-6)
     worst = 0.0
     for i, (v, x) in enumerate(zip(g._vertices, xs)):
         dlt = float(np.abs(np.array(gs.stored(v.pose)) - np.array(x)).max())
@@ -212,7 +221,7 @@ def check(case, ctx):
         if not GC.all_finite(g):
             return ctx.fail("nonfinite-poses", "second problem on the same Graph object: poses not finite")
         xinf2 = max([1.0] + [abs(t) for x in xs2 for t in x])
-        tol2 = 1e-7 * (1 + xinf2) * max(1.0, cond2 * cond2 * 1e-6)
+        tol2 = 1e-9 * (1 + xinf2) * max(1.0, cond2 * cond2 * 1e-6)
         for i, (v, x) in enumerate(zip(g._vertices, xs2)):
             dlt = float(np.abs(np.array(gs.stored(v.pose)) - np.array(x)).max())
             if not (dlt <= tol2):
